@@ -625,8 +625,20 @@ def main():
             if o['name'] in known and o['status'] == 'FAILED':
                 known_hits.append('KNOWN-FINDING: property=%s %s (obligation %s)' % (a.prop, known[o['name']], o['name'])); continue
             rp = '%s/%s.json' % (rp_dir, re.sub(r'[^\w.]', '_', o['name']))
+            rstatus = 'model-not-replayed' if o['model'] else 'no-model'; rcmd = None; rout = None
+            try:
+                import subprocess
+                for r in json.load(open(V + '/replays.json'))['replays']:
+                    if r['property'] == a.prop and any(o['name'].startswith(pf) for pf in r['prefixes']):
+                        pr = subprocess.run(r['cmd'], cwd=V, capture_output=True, text=True)
+                        rcmd = ' '.join(r['cmd']); rout = (pr.stdout + pr.stderr)[-6000:]
+                        if pr.returncode != 0: rstatus = 'reproduced on the real code: the registered replay fails on this tree'
+                        elif o['model']: rstatus = 'model-not-replayed (the registered replay passes on this tree: the failing input is another one)'
+                        break
+            except Exception as e:
+                rout = 'replay could not be run: %s' % e
             json.dump({'property': a.prop, 'obligation': o['name'], 'clause': o['text'], 'position': o['pos'], 'solver_result': o['result'],
-                       'model': o['model'], 'smt_file': o['smt_file'], 'replay_status': 'model-not-replayed' if o['model'] else 'no-model'}, open(rp, 'w'), indent=1)
+                       'model': o['model'], 'smt_file': o['smt_file'], 'replay_status': rstatus, 'replay_command': rcmd, 'replay_output': rout}, open(rp, 'w'), indent=1)
             violations.append('VIOLATION property=%s replay=%s%s' % (a.prop, rp, '' if o['model'] else ' no-failing-input-found'))
     if nproof < cfg.get('min_obligations', 1): tool_errors.append('only %d obligations generated (expected at least %d): contracts did not bind' % (nproof, cfg.get('min_obligations', 1)))
     for k in known_hits: print(k)
